@@ -444,6 +444,35 @@ func rtcStorm(run *vk.Run, a childArgs) {
 			}
 		}()
 	}
+	// an operator starts and stops the REAL disk recorder (diskwriter client joining the
+	// group, down tracks added to live up tracks) and locks/unlocks while streams come and go
+	pwg.Add(1)
+	go func() {
+		defer pwg.Done()
+		r := run.Rand(9, a.Index)
+		c, err := vclient.Dial(srv, fmt.Sprintf("rtcop%d", a.Index))
+		if err != nil {
+			return
+		}
+		defer c.Close()
+		if m, ok := c.Join("r1", "op1", "pw-op1"); !ok || m.Str("kind") != "join" {
+			return
+		}
+		for {
+			for _, k := range []string{"record", "lock", "unrecord", "unlock"} {
+				select {
+				case <-stop:
+					return
+				default:
+				}
+				run.Note("operator " + k)
+				c.Send(vclient.Msg{"type": "groupaction", "kind": k})
+				run.Count("rtc_operator_actions", 1)
+				ops.Add(1)
+				time.Sleep(time.Duration(50+r.IntN(300)) * time.Millisecond)
+			}
+		}
+	}()
 	var wg sync.WaitGroup
 	// WHIP sessions created over HTTP and torn down (DELETE, or by closing the client's
 	// PeerConnection) while web clients join, publish and leave
@@ -516,6 +545,9 @@ func rtcStorm(run *vk.Run, a childArgs) {
 	pwg.Wait()
 	run.Eval(ops.Load())
 	run.Count("rtc_storm_ops", ops.Load())
+	if files, err := filepath.Glob(filepath.Join(srv.RecDir, "r1", "*")); err == nil {
+		run.Count("rtc_recordings_written", int64(len(files)))
+	}
 }
 
 // ---- queue semantics: unbounded.Channel -------------------------------------------------
